@@ -104,6 +104,24 @@ def C01(ctx):
         ctx.case(key, nontriv, *cls)
 
 
+def C01_malformed(ctx):
+    """graphs OUTSIDE the property's domain (dead ends, information-free cycles, out-degree 3 in fast
+    mode): no oracle, only the correspondence of the error behaviour; a read budget turns the
+    non-terminating cases into `BUDGET` (the model says OUT_OF_FUEL)."""
+    rng = ctx.rng
+    for it in range(ctx.n(150, 6000)):
+        k = rng.choice([1, 2, 2, 3])
+        g = rng.choice([gen.rand_arc_subset, gen.rand_profile_graph])(rng, k)
+        v = rng.randrange(g.n)
+        bits = gen.rand_bits(rng, 24)
+        tbl = gen.rand_table(rng, k)
+        for fast in (0, 1):
+            proxy = Counting(np.array(g.rows(), dtype=int), 2 * (len(bits) * g.n + 1) + 2)
+            key = "enc %s %s %d %s %d %d" % (g.token(), tbl_token(tbl), v, bits_token(bits), fast, rng.choice([0, 3]))
+            out = ctx.corr(key, {"acc": proxy})
+            ctx.case(key, out.startswith("err"), "malformed-" + out.split(" ")[1] if out.startswith("err") else "malformed-ok")
+
+
 def C01_exhaustive(ctx):
     """thorough only: all order-1 arc tables x starts x messages up to 3 bits x both modes."""
     rng = ctx.rng
@@ -234,7 +252,10 @@ def C06(ctx):
                     ctx.fail("non-walk (or wrong check) not rejected with ValueError", line=key, observed=d)
                 ctx.case(key, len(s) > 0, kind, "chk-" + chk_kind, "accept" if accept else "reject")
                 # fast mode on graphs without out-degree 3
-                if not any(g.deg(u) == 3 for u in g.reachable(v)):
+                if any(g.deg(u) == 3 for u in g.reachable(v)):
+                    if rng.random() < 0.3:      # outside the property: correspondence of the error behaviour only
+                        ctx.corr("dec %s %s %d %s %d 1 %s" % (a, tt, v, tok(s), 2 * len(s) + 2, chk))
+                else:
                     pref = s
                     while not g.is_walk(v, pref):
                         pref = pref[:-1]
@@ -960,6 +981,13 @@ def C13(ctx):
 # =============================================================================== C14
 def C14(ctx):
     rng = ctx.rng
+    if ctx.part == 0:
+        a0 = np.array(gen.gc_balanced2().rows(), dtype=int)
+        for kw in ({}, {"accessor": a0, "latter_map": {1: [4, 7]}}):
+            st, r = proto.guarded(lambda: GZ.obtain_leaf_vertices(1, 1, **kw))
+            if not (st == "err" and r == "ValueError"):
+                ctx.fail("leaf query with %s representations does not raise ValueError" % ("both" if kw else "no"),
+                         observed=str(r)[:80])
     for it in range(ctx.n(200, 5000)):
         k = rng.choice([1, 2, 2, 3] if not ctx.thorough else [2, 3, 3, 4, 5])
         g = rng.choice([gen.rand_arc_subset, gen.rand_profile_graph])(rng, k)
@@ -1003,6 +1031,12 @@ def C14(ctx):
                     oi = ctx.corr("m2a " + proto.enc_matrix(M2))
                     if oi != "err ValueError":
                         ctx.fail("matrix with a non-shift arc not rejected with ValueError", u=u, w=w, k=k, observed=oi[:100])
+        if k <= 3 and rng.random() < 0.15:
+            bad = [r[:] for r in rows]
+            bad[rng.randrange(g.n)][rng.randrange(4)] = rng.choice([-2, g.n, g.n + 5])
+            ob = ctx.corr("a2m g:" + ",".join(str(x) for r in bad for x in r))
+            if ob != "err ValueError":
+                ctx.fail("accessor with an entry outside [-1, n) not rejected with ValueError", observed=ob[:80])
         v, d = rng.randrange(g.n), rng.randrange(0, 4)
         ends = [v]
         for _ in range(d):
@@ -1148,6 +1182,10 @@ def C16(ctx):
         if ctx.thorough:
             W = 14400
             number_case(2 ** W - 1 - rng.randrange(2 ** 40), W, 2)
+    for fn, arg in ((OP.number_to_bit, 2.5), (OP.number_to_dna, 2.5)):
+        st, r = proto.guarded(lambda: fn(arg, 3))
+        if not (st == "err" and r == "ValueError"):
+            ctx.fail("a number that is neither str nor int is not rejected with ValueError", function=fn.__name__, observed=str(r)[:80])
     o = ctx.corr("d2n ACGN")
     if o != "err ValueError | err ValueError":
         ctx.fail("foreign nucleotide not reported as ValueError", observed=o)
@@ -1488,6 +1526,17 @@ def C20(ctx):
             except (ValueError, IndexError):
                 pass
             return "done"
+        def removal(vb=False):
+            a5, l5 = A.copy(), {x: list(y) for x, y in LM.items()}
+            r = SW.remove_nasty_arc(a5, l5, iteration=rng_t - 1, verbose=vb)
+            return r[0], r[1], r[2], r[3]
+        calls["removal"] = (removal, None)
+        calls["complete"] = (lambda vb=False: GZ.get_complete_accessor(k, verbose=vb), "complete %d" % k)
+        calls["from_matrix"] = (lambda vb=False: GZ.adjacency_matrix_to_accessor(
+            GZ.accessor_to_adjacency_matrix(A), verbose=vb), None)
+        calls["bits2int"] = (lambda vb=False: OP.bit_to_number(B, is_string=False, verbose=vb), None)
+        calls["capacity_multi"] = (lambda vb=False: (np.random.seed(5), GZ.approximate_capacity(A, repeats=3, process=True, verbose=vb))[1], None)
+        calls["capacity_arcless"] = (lambda vb=False: GZ.approximate_capacity(-np.ones((4 ** k, 4), dtype=int), repeats=rng_t, process=True, verbose=vb), None)
         calls["pipeline_rmu"] = (pipeline_rmu, None)
         calls["pipeline_a2l"] = (pipeline_a2l, None)
         calls["pipeline_ccg"] = (pipeline_ccg, None)
